@@ -704,6 +704,23 @@ func (s *pScope) head(e ast.Expr, nargs int) string {
 	return ""
 }
 
+// result type of a call whose head is a function-typed parameter/field or an interface method
+func (s *pScope) callResult(c *ast.CallExpr) (pRes, bool) {
+	if _, t, ok := s.typeOf(c.Fun); ok && t.fn != nil && t.fn.Results != nil && len(t.fn.Results.List) == 1 {
+		return s.w.resolve(t.fpkg, t.fn.Results.List[0].Type, t.fenv), true
+	}
+	if sel, ok := c.Fun.(*ast.SelectorExpr); ok {
+		if _, t, ok := s.typeOf(sel.X); ok && t.decl != nil && t.decl.kind == "iface" {
+			for _, sig := range s.w.ifaceSigs(t.decl, t.decl.bind(t.args)) {
+				if sig.name == sel.Sel.Name {
+					return s.w.resolve(sig.pkg, sig.result, sig.env), true
+				}
+			}
+		}
+	}
+	return pRes{}, false
+}
+
 // monadic translation of `return e`
 func (s *pScope) ret(e ast.Expr, indent string) string {
 	// up-front check of every call in e: head kind and arity (fails closed)
@@ -808,6 +825,37 @@ func (w *pWorld) emitMethod(t *pType, fd *ast.FuncDecl, sb *strings.Builder) {
 
 // body: `return e` or `switch { case c: return e ... default: return e }`
 func (s *pScope) body(b *ast.BlockStmt, what string) string {
+	// leading `x := f(…)` statements: one monadic bind each (Go evaluates them in order, before the rest); the local's
+	// type is the callee's result type
+	prefix := ""
+	for b != nil && len(b.List) >= 2 {
+		as, ok := b.List[0].(*ast.AssignStmt)
+		if !ok || as.Tok != token.DEFINE || len(as.Lhs) != 1 || len(as.Rhs) != 1 {
+			break
+		}
+		l, ok1 := as.Lhs[0].(*ast.Ident)
+		call, ok2 := as.Rhs[0].(*ast.CallExpr)
+		if !ok1 || !ok2 || l.Name == "_" {
+			break
+		}
+		if _, dup := s.vars[l.Name]; dup {
+			fail(pos(as), "%s: local %s shadows a name in scope", what, l.Name)
+		}
+		res, ok := s.callResult(call)
+		if !ok {
+			fail(pos(as), "%s: cannot type the local %s", what, l.Name)
+		}
+		lines := s.ret(call, "  ")
+		lines = strings.TrimRight(lines, "\n")
+		k := strings.LastIndex(lines, "\n")
+		// the last line is the call in tail position: bind it to the local
+		prefix += lines[:k+1] + "  let " + id(l.Name) + " ← " + strings.TrimSpace(lines[k+1:]) + "\n"
+		s.vars[l.Name] = pVar{lean: id(l.Name), typ: res}
+		b = &ast.BlockStmt{Lbrace: b.Lbrace, List: b.List[1:]}
+	}
+	if prefix != "" {
+		return prefix + s.body(b, what)
+	}
 	// `if c1 { return e1 }; if c2 { return e2 }; return e3` is the tagless switch with a default
 	if b != nil && len(b.List) >= 2 {
 		if last, ok := b.List[len(b.List)-1].(*ast.ReturnStmt); ok {
